@@ -26,7 +26,7 @@ from vf.trace import make_tracing_solver, run_solve, trial_bytes
 
 ID = "C08"
 LEVEL = "fault_enumeration"
-BUDGET = {"quick": 12, "thorough": 150}
+BUDGET = {"quick": 12, "thorough": 80}
 CASE_TIMEOUT = 600
 RULE = (
     "case = (spec, start, params, scaling, reference budget); inside each case every iteration "
